@@ -12,6 +12,47 @@ ROUTE_NAMES = {0: 'PyDBML(str)', 1: 'PyDBML.parse(str)', 2: 'PyDBML(Path)', 3: '
                5: 'parse_file(path str)', 6: 'parse_file(Path)', 7: 'parse_file(open file)'}
 
 
+def codec_oracle(docs):
+    import os, tempfile
+    from pydbml import PyDBML
+    out = []
+
+    def snap(f):
+        try:
+            d = f()
+            return ('ok', docgen.content(d), d.dbml)
+        except Exception as e:   # noqa
+            return ('raise', pyscript.exc_name(e))
+    for text, allow in docs:
+        for codec in ('utf-16', 'latin-1', 'cp1252', 'utf-8'):
+            try:
+                raw = text.encode(codec)
+            except UnicodeEncodeError:
+                continue
+            fd, path = tempfile.mkstemp(suffix='.dbml', dir='/var/tmp')
+            try:
+                with os.fdopen(fd, 'wb') as fh:
+                    fh.write(raw)
+                base = snap(lambda: PyDBML(text, allow_properties=allow))
+                with open(path, encoding=codec, newline='') as fh:
+                    a = snap(lambda: PyDBML(fh, allow_properties=allow))
+                results = [('PyDBML(open file, encoding=%s)' % codec, a)]
+                if not allow:
+                    with open(path, encoding=codec, newline='') as fh:
+                        results.append(('parse_file(open file, encoding=%s)' % codec, snap(lambda: PyDBML.parse_file(fh))))
+                for name, got in results:
+                    if got != base:
+                        out.append({'cause': 'oracle', 'clause': 'PyDBML(str) and %s give different results' % name,
+                                    'detail': '%s vs %s' % (str(base)[:200], str(got)[:200]),
+                                    'input': {'kind': 'document', 'text_hex': hexs(text), 'text': text, 'codec': codec}})
+                        break
+            finally:
+                os.unlink(path)
+            if out:
+                return out[:2]
+    return out
+
+
 def run(v, tier, st, pr):
     r = rng('c12')
     n = 40 if tier == 'quick' else 1500
@@ -73,6 +114,8 @@ def run(v, tier, st, pr):
     if outs[type_error_job] != 'raise builtins.TypeError':
         fails.append({'cause': 'oracle', 'clause': 'the constructor does not refuse another source type with TypeError: ' + outs[type_error_job],
                       'input': {'kind': 'api', 'text': 'PyDBML(12345)'}})
+    # an open text file is read through the handle: whatever codec the caller opened it with
+    fails += codec_oracle(docs[:12] + [('Table "café" {\n  "naïve" int [note: \'é ü ñ\']\n}\n', False)])
     fails.sort(key=lambda f: len(f['input'].get('text', '')))
     total = verdicts.conclude(v, pr, st, {'entry': stream_script.strip(res)}, fails)
     v.coverage['evaluations'] = total
